@@ -535,7 +535,16 @@ mod bits {
 		}
 		fn from_val(v: &Val) -> Self {
 			match v {
-				Val::Bits(b) => b.iter().copied().collect(),
+				Val::Bits(b) => {
+					// leave stale set bits in the storage beyond `len`: they must never matter
+					let mut v: Self = b.iter().copied().collect();
+					let n = v.len();
+					for _ in 0..5 {
+						v.push(true);
+					}
+					v.truncate(n);
+					v
+				},
 				o => panic!("model: bits expected, got {}", o.brief(60)),
 			}
 		}
